@@ -86,6 +86,10 @@ func C04(c *Ctx) {
 	r.Rule("R04.2", "status writers: every write of a tx record (key TxInfoKey) stores either a freshly created record (in Begin / the record-absent branch) or a status produced by setFSM from a status that was loaded from the stored record on every path (Unmarshal / GetObject precedes setFSM); the executor's timeout write applies BEGIN_ROLLBACK only to ids read from the timeout list of the same height.")
 	r.Rule("R04.3", "a rejected receipt has no effect: in Report and BeginInterBitXHub every record write lies behind the no-error edge of setFSM.")
 	r.NotDecided = append(r.NotDecided, "reachability of each edge over histories; contents of inter-BitXHub proofs")
+	// clauses of the timeout bookkeeping that are necessary for "final statuses never change" and "a rejected receipt
+	// has no effect": a finished transaction that stays listed is overwritten with BEGIN_ROLLBACK at its timeout
+	// height, and a rejected receipt must not take a running one out of the list (decided by the C06 rule set)
+	r.Borrow(map[string]string{"R06.8": "R04.5", "R06.11": "R04.6", "R06.14": "R04.7", "R06.15": "R04.8", "R06.10": "R04.9"}, func() { C06(c) })
 
 	setFSM := c.fn("R04.1", tmPrefix+"setFSM")
 	if setFSM == nil {
